@@ -45,9 +45,11 @@ def plan(prop, tier):
                 ("enum", "en:3x2:4:0_0:s", 32 if q else 2, 8), ("enum", "en:2x2:3:0_0:s", 512 if q else 32, 8), ("enum", "en:2x2:4/0:1_1:s", 32 if q else 2, 8), ("tri", 2, 840, 9 if q else 1)]
     if prop == "C14":
         return [("f64", EXACT + ",cx,rect", 110 if q else 1100, 3 if q else 4, 70 if q else 110, 6), ("f32", EXACT, 20 if q else 200, 3, 60, 6), ("f64", "tshare,tshare,cxsplit", 150 if q else 1500, 3, 60, 6),
+                ("f64", EXACT + ",cx,rect", 25 if q else 250, 3, 60, 6, "frames"),
                 ("enum", "en:3x2:4:0_0:k", 32 if q else 2, 6), ("enum", "en:2x1:2:0_0:s", 512 if q else 32, 6), ("enum", "en:3x3:4:0_0:s", 2048 if q else 128, 6), ("tri", 2, 840, 9 if q else 1)]
     if prop == "C15":
         return [("f64", EXACT + "," + ROUND, 70 if q else 700, 3 if q else 4, 60 if q else 100, 36 if q else 60), ("f32", EXACT, 15 if q else 150, 3, 50, 36),
+                ("f64", EXACT + "," + ROUND, 20 if q else 200, 3, 50, 30, "frames"),
                 ("enum", "en:2x2:3:0_0:s", 1024 if q else 64, 30), ("enum", "en:2x2:4/0:1_1:s", 64 if q else 4, 30), ("tri", 2, 840, 13 if q else 2)]
     raise ToolError("no plan for " + prop)
 
